@@ -315,9 +315,12 @@ def parseAreaTemp (ctx : Ctx R) (kind : Nat) (corners : List (P2 R)) (model : St
     return .chapman rng op t f k h
   | "half space model" =>
     return .halfSpace rng op (← pmLift (c.getNum "top temperature")) (← pmLift (c.getNum "bottom temperature")) (← pmLift (c.getRidgeSpec sph))
-  | "plate model" =>
+  | "plate model" => do
+    -- `WBAssertThrow(max_depth > 0. && max_depth < max double, …)` (upstream 'fix: plate models accepted a zero or unbounded plate thickness')
+    if !(decide (rng.maxDepth > 0.0) && decide (rng.maxDepth < Scalar.dblMax)) then pmErr .other
     return .plateModel rng op (← pmLift (c.getNum "top temperature")) (← pmLift (c.getNum "bottom temperature")) (← pmLift (c.getRidgeSpec sph))
   | "plate model constant age" => do
+    if !(decide (rng.maxDepth > 0.0) && decide (rng.maxDepth < Scalar.dblMax)) then pmErr .other
     let age : R ← pmLift (c.getNum "plate age")
     return .plateModelConstantAge rng op (← pmLift (c.getNum "top temperature")) (← pmLift (c.getNum "bottom temperature")) (age * 31557600)
   | _ => pmErr .unsupported
